@@ -72,6 +72,12 @@ pub fn run_cmd4(rep: &mut Report, mut cfg: Cfg, caps: &Caps, seed: u64) {
     run_model(rep, &m, caps, seed);
 }
 
+pub fn run_cmdu(rep: &mut Report, mut cfg: Cfg, caps: &Caps, seed: u64) {
+    cfg.names = cmdu_names();
+    let m = SessModel::<CmdU>::new(cfg);
+    run_model(rep, &m, caps, seed);
+}
+
 pub fn run_model<M: Model>(rep: &mut Report, m: &M, caps: &Caps, seed: u64) {
     if let Some(o) = maybe_replay(m) {
         if !o.name.is_empty() {
@@ -115,6 +121,30 @@ pub fn c05(rep: &mut Report, tier: &str, seed: u64, prop: &'static str) {
             rep.required.push((name, "editor_backspace".into()));
         }
     }
+    // first / last scalar of every encoded length (code with lead-byte specific logic)
+    let boundary = vec![
+        ch('a'),
+        ch('\u{80}'),
+        ch('\u{7ff}'),
+        ch('\u{800}'),
+        ch('\u{ffff}'),
+        ch('\u{10000}'),
+        ch('\u{10ffff}'),
+        k(Key::Bs),
+        k(Key::Left),
+        k(Key::Right),
+    ];
+    for cb in if tier == "quick" { vec![3, 5] } else { vec![3, 5, 7] } {
+        let cfg = base_cfg(
+            prop,
+            format!("editor boundary scalars cb={} hb=0 raw", cb),
+            cb,
+            0,
+            boundary.clone(),
+            feat(Mon { editor: true, invariants: true, ..Default::default() }),
+        );
+        run_raw(rep, cfg, &caps, seed);
+    }
     // lines replaced by recall / completion / submission are then edited
     let alphabet2 = vec![
         ch('a'),
@@ -150,7 +180,7 @@ pub fn c05(rep: &mut Report, tier: &str, seed: u64, prop: &'static str) {
 pub fn c10(rep: &mut Report, tier: &str, seed: u64) {
     let caps = caps(tier);
     let mon = Mon { history: true, invariants: true, ..Default::default() };
-    let alphabet = vec![ch('a'), ch('é'), k(Key::Bs), k(Key::Lf), k(Key::Up), k(Key::Down)];
+    let alphabet = vec![ch('a'), ch('é'), k(Key::Bs), k(Key::Left), k(Key::Lf), k(Key::Up), k(Key::Down)];
     let mut cfgs: Vec<(usize, usize)> = vec![];
     for cb in 0..=3 {
         for hb in 0..=7 {
@@ -160,7 +190,7 @@ pub fn c10(rep: &mut Report, tier: &str, seed: u64) {
     cfgs.push((4, 6));
     cfgs.push((4, 8));
     for (cb, hb) in cfgs {
-        let mut cfg = base_cfg("C10", format!("history cb={} hb={} raw 6ev", cb, hb), cb, hb, alphabet.clone(), mon.clone());
+        let mut cfg = base_cfg("C10", format!("history cb={} hb={} raw 7ev", cb, hb), cb, hb, alphabet.clone(), mon.clone());
         cfg.poison = true;
         let name = cfg.label.clone();
         run_raw(rep, cfg, &caps, seed);
@@ -634,4 +664,15 @@ pub fn c16(rep: &mut Report, tier: &str, seed: u64) {
         d = (d ^ x).wrapping_mul(0x100000001b3);
     }
     rep.notes.push(format!("graph-digest {} distinct-projected-transitions {}", d, v.len()));
+}
+
+/// tiny closure meant to be run under miri (supplementary UB detector; sequential)
+pub fn c03_miri(rep: &mut Report, seed: u64) {
+    let mon = Mon { invariants: true, ..Default::default() };
+    let alpha = vec![ch('a'), ch('é'), ch(' '), ch('"'), k(Key::Bs), k(Key::Left), k(Key::Right), k(Key::Up), k(Key::Down), k(Key::Tab), k(Key::Lf), wr("x\n"), Ev::SetPrompt("é> ")];
+    let mut caps = caps("quick");
+    caps.max_states = 100_000;
+    caps.max_wall_s = 540.0;
+    let cfg = base_cfg("C03", "miri cb=2 hb=3 cmd4".to_string(), 2, 3, alpha, mon);
+    run_cmd4(rep, cfg, &caps, seed);
 }
